@@ -123,6 +123,7 @@ def judge_rx(sc, lines_in, impl_out):
 
 class C03(PropBase):
     id = 'C03'
+    address_change = 0.15
     rx_only_gaps = 0.1
     partial_passes = 0.25
     lean_modules = ['Isotp.Props.C03']
